@@ -15,6 +15,8 @@ FILES = {
     "a.py": ("file.a", True, "script"),
     "b.py": ("file.b", True, "script"),
     "scripts/s1.py": ("scripts.s1", True, "script"),
+    "scripts/sub/s2.py": ("scripts.sub.s2", True, "script"),
+    "apps/app2.py": ("apps.app2", True, "app2"),  # single-file app, always configured (apps: {app2: {}})
     "apps/app1/__init__.py": ("apps.app1", True, "app"),
     "apps/app1/helper.py": ("apps.app1.helper", False, "appmod"),
     "modules/m1.py": ("modules.m1", False, "module"),
@@ -27,6 +29,8 @@ IMPORTS = {
     "a.py": [("import m1", ["modules.m1"]), ("import pkg", ["modules.pkg"]), ("from m1 import mval", ["modules.m1"])],
     "b.py": [("import pkg", ["modules.pkg"]), ("import m1", ["modules.m1"])],
     "scripts/s1.py": [("import m1", ["modules.m1"])],
+    "scripts/sub/s2.py": [("import m1", ["modules.m1"])],
+    "apps/app2.py": [("import m1", ["modules.m1"]), ("import pkg", ["modules.pkg"])],
     "apps/app1/__init__.py": [("from . import helper", ["apps.app1.helper"]), ("import m1", ["modules.m1"])],
     "apps/app1/helper.py": [("import pkg", ["modules.pkg"])],
     "modules/m1.py": [("import pkg", ["modules.pkg"])],
@@ -209,7 +213,7 @@ def gen(R):
         elif k == "appconf":
             ops.append({"op": "appconf", "conf": R.choice([None, {"x": 1}, {"x": 2}])})
         elif k == "reload":
-            ops.append({"op": "reload", "which": R.weighted([(6, None), (1, "*"), (1, "file.a"), (1, "modules.m1"), (1, "apps.app1"), (1, "modules.pkg")])})
+            ops.append({"op": "reload", "which": R.weighted([(6, None), (1, "*"), (1, "file.a"), (1, "modules.m1"), (1, "apps.app1"), (1, "modules.pkg"), (1, "apps.app2"), (1, "scripts.sub.s2")])})
         else:
             ops.append({"op": "bump"})
     ops.append({"op": "reload", "which": None})
@@ -231,7 +235,7 @@ async def execute(case, variant=False):
     files = {}
     for p, f in case["initial"].items():
         files[p] = source(p, f["gen"], f["imports"])
-    cfg = {"apps": {"app1": case["app_conf"]}} if case["app_conf"] is not None else {}
+    cfg = {"apps": dict({"app2": {}}, **({"app1": case["app_conf"]} if case["app_conf"] is not None else {}))}
     it = l3.Integ({}, legacy=case["legacy"], config_extra=cfg)
     # write initial files with explicit mtimes before set-up
     orig_write = it.write_files
@@ -305,10 +309,7 @@ async def execute(case, variant=False):
                     m.files[p]["commented"] = k == "comment"
             elif k == "appconf":
                 m.app_conf = op["conf"]
-                if op["conf"] is None:
-                    it.config["pyscript"].pop("apps", None)
-                else:
-                    it.config["pyscript"]["apps"] = {"app1": op["conf"]}
+                it.config["pyscript"]["apps"] = dict({"app2": {}}, **({"app1": op["conf"]} if op["conf"] is not None else {}))
             elif k == "bump":
                 it.fire("bump", {})
                 await it.settle(1)
@@ -327,7 +328,7 @@ async def execute(case, variant=False):
 class C10(ModelCheck):
     prop = PROP
     rule = (
-        "file trees over pyscript/a.py, b.py, scripts/s1.py, apps/app1/__init__.py + helper.py, modules/m1.py, "
+        "file trees over pyscript/a.py, b.py, scripts/s1.py, scripts/sub/s2.py, apps/app2.py (single-file app), apps/app1/__init__.py + helper.py, modules/m1.py, "
         "modules/pkg/__init__.py + sub.py (each present or not) with generated import edges (import m, from m import x, "
         "relative import inside packages; modules importing modules) and optional app configuration, followed by 2-10 "
         "steps of modify / touch (mtime only) / create / delete / rename with '#' / add-remove-change app config / fire a "
